@@ -388,10 +388,10 @@ func init() {
 	})
 }
 
-func TestPropHADecode(t *testing.T)  { runProp(t, 6000, 120000, "ha.DecodeSyncMessage") }
-func TestPropHASSE(t *testing.T)     { runProp(t, 3000, 60000, "ha-sse") }
-func TestPropNATFTPALG(t *testing.T) { runProp(t, 6000, 120000, "nat-ftp-alg") }
-func TestPropNATSIPALG(t *testing.T) { runProp(t, 6000, 120000, "nat-sip-alg") }
+func TestPropHADecode(t *testing.T)  { runProp(t, 4000, 80000, "ha.DecodeSyncMessage") }
+func TestPropHASSE(t *testing.T)     { runProp(t, 2500, 40000, "ha-sse") }
+func TestPropNATFTPALG(t *testing.T) { runProp(t, 4500, 90000, "nat-ftp-alg") }
+func TestPropNATSIPALG(t *testing.T) { runProp(t, 4500, 90000, "nat-sip-alg") }
 func TestPropZTP(t *testing.T) {
-	runProp(t, 10000, 200000, "ztp.parseVendorOptions", "ztp.extractNexusURL")
+	runProp(t, 7000, 140000, "ztp.parseVendorOptions", "ztp.extractNexusURL")
 }
